@@ -402,6 +402,7 @@ impl Property for C11 {
             expect: serde_json::to_value(&expect).unwrap(),
             shape: h.0,
             est_len: 200,
+            min_quantum: 0,
         }
     }
     fn prepare(&self, scn: &mut Scenario, case_seed: u64) -> Vec<(Violation, RunSpec, RunResult)> {
